@@ -13,6 +13,10 @@ CHECKS = {
          "§5 C06", "Lean 4 proof (offset lemmas) + generated-layout = spec-layout obligation + independent spec reader as oracle"),
  "C08": ("proof, for every well-formed STR/STRx table (any offsets: shared, unsorted, interior; unreferenced entries; empty) and every request list of 7-bit strings, that the editor model succeeds, keeps every existing id's text, gives every requested string an id resolving to exactly it, appends only the not-yet-resolvable requests once each, yields a well-formed table, is idempotent, fails loudly on offset overflow, and that STR->STRx preserves the id->text map; model tied to both editors and the generator by a correspondence run with an independent offset reader",
          "§5 C08", "Lean 4 proof (induction on string data / request list) + hand model of the editors tied by differential correspondence"),
+ "C09": ("proof about the allocator shared by the four slot tables, for every occupancy, batch and iteration order: slots handed out are in range, were empty, pairwise distinct, never the reserved Anywhere slot for index-less objects; carried free indices are kept; a call needing no new slot never fails; exhaustion and out-of-range indices fail loudly; WAV paths are requested once; configuration (ranges, reserved id, raise/skip) regenerated from the source and proved equal to the format's",
+         "§5 C09", "Lean 4 proof (state-machine invariant by induction over the request list) + ast translator of allocator configuration + differential correspondence with observed set order"),
+ "C14": ("proof that the allocator's outcome is invariant under permutation of the batch (List.Perm): both fail or both succeed, same free list, same occupied set, same set of new slots; whole-save determinism modulo new-slot numbering is validated across interpreters with different hash seeds through an independent slot-renumbering-invariant digest (partial: the rewrite of references and string collection order are checked by that run, not proved)",
+         "§5 C14", "Lean 4 proof (permutation invariance via an order-free characterisation) + cross-process differential run"),
  "C12": ("proof, for every flag codec / enumeration / the AI-script and hit-point codecs as regenerated from the source, of number->rich->number and rich->number->rich exactness on the WHOLE domain (statements over all natural numbers, proved by induction on bits / membership, not by enumeration), injectivity, and rejection of every non-member number; plus exhaustive correspondence of the model with the real helpers",
          "§5 C12", "Lean 4 proof (bit induction, finite-table obligations by decide +kernel) + ast translator of bit layouts/enums + exhaustive differential correspondence"),
  "C19": ("proof that the decoder model is total (well-founded recursion on the remaining input) and that every accepted input re-encodes to bytes that decode to the same model (c19_writable, for all byte strings); tied to the code by correspondence on a malformed-input stream",
